@@ -12,9 +12,10 @@ What is required of a result
   on the returned value also |ROUNDDOWN| <= |x| <= |ROUNDUP| and exact multiples are fixed.
   int or float are both fine, only the numeric value counts.
 * INT = floor, EVEN/ODD = next even/odd integer away from zero (ODD(0)=1, EVEN(0)=0).
-* MOD(n, 0) = #DIV/0!; otherwise n = d*q + MOD within 8 ulp of max(|n|, |d*q|) for q = INT(n/d),
-  where INT(n/d) may be read as the floor of the double quotient n/d or as the floor of the exact
-  quotient of the decimal renderings (either reading passes); MOD has the sign of d, a MOD within
+* MOD(n, 0) = #DIV/0!; otherwise n = d*q + MOD within 8 ulp of max(|n|, |d*q|) for q = INT(n/d) as the
+  formula INT(n/d) computes it, the floor of the double quotient n/d (until round 5 of the seeded changes the floor
+  of the exact quotient of the decimal renderings passed as well; a MOD built on that one breaks the identity with
+  the workbook's own INT by a whole divisor, see DESIGN.md 10.5); MOD has the sign of d, a MOD within
   that tolerance of 0 counts as either sign (rule fixed in DESIGN.md).
 * CEILING/FLOOR/.MATH/.PRECISE: the adjacent multiple of the significance named by Excel's
   documented sign conventions, within 8 ulp of max(|x|, |multiple|) and on the same side of x as that
